@@ -60,8 +60,14 @@ def jobs(tier, ctx):
             add('F_INDEX', ['NUM', c])
         for c in INDEXED:
             add('F_INDEX', ['STR', c])
-    # (harness/C01/implode.c is kept but not run: CBMC 6.11 returns unconstrained values for x->item[i], i >= 1, on the
-    #  trailing item[1] arrays, so the element kinds of a multi-element array cannot be fixed; DESIGN Corrections 9)
+    # implode(array, delimiter): element kinds (string / non-string) concrete per run, contents symbolic; typed array block
+    for pat in ((1, 2, 5, 6, 7) if tier == 'quick' else range(8)):
+        out.append(dict(name='implode.pat%d' % pat, srcs=['@harness/C01/implode.c', 'lib/lpc/array.c', 'src/stralloc.c', 'lib/misc/hash.c', 'lib/lpc/svalue.c'],
+                        stubs=['@world/world_base.c', '@world/libc_models.c', '@world/vm_world.c', '@world/world_err.c', '@world/typed_arrays.c', '@harness/vm/stubs.c'],
+                        defs=['PAT=%d' % pat, 'VERIF_ARRAY_ITEMS=8'], unwind=6, nobody_ok=['*'], targets=['implode_string'], timeout=300, mem_gb=6,
+                        cuts=['dealloc_mapping', 'dealloc_class', 'dealloc_funp', 'free_mapping', 'free_class'],
+                        desc='implode_string on a 3-element array whose elements are strings exactly at the positions of bit pattern %d (others numbers): the result is the strings joined by the delimiter, nothing written outside the result buffer' % pat,
+                        inputs='string bytes, delimiter byte, numbers', assumptions=['1-byte strings and delimiter (the allocation size is then concrete)', 'typed array block of 8 elements (DESIGN corrections 14)']))
     out.append(dict(name='error.msg_buffer', srcs=['@harness/C01/error_fmt.c'], stubs=['@world/world_base.c', '@world/libc_models.c', '@harness/C01/error_stubs.c'],
                     defs=['MODE_ERROR=1'], cuts=['error_handler', 'mudlib_error_handler', 'debug_message_with_location'], unwind=4, targets=['error'], timeout=200, mem_gb=4,
                     desc='real error() with vsnprintf reporting any length >= -1: msg[len-1], msg[len], msg[len+1] stay inside the 8 KiB buffer',
